@@ -601,7 +601,7 @@ Section Sound.
 
     Lemma const_array_sound t pd dv i e :
       sort_of_sexp Sg (sort_sexp t) = Some (TArr i e) -> seval Sg I rho pd = Some dv ->
-      seval Sg I rho (const_array t pd) = Some (VArr (fun _ => dv)).
+      seval Sg I rho (const_array t pd) = Some (VArr (fun k => if key_sortb k i then dv else junk)).
     Proof.
       intros Ht Hd. unfold const_array. cbn [seval]. cbn [String.eqb Ascii.eqb Bool.eqb].
       now rewrite Ht, Hd.
@@ -721,7 +721,7 @@ Section Sound.
         | OArrayValue it =>
             match args with
             | d :: assigns =>
-                (exists i e, sort_of_sexp Sg (sort_sexp (array_value_type it d)) = Some (TArr i e)) /\
+                (exists e, sort_of_sexp Sg (sort_sexp (array_value_type it d)) = Some (TArr it e)) /\
                 av_keys_ok assigns = true /\ conj_all (wfp bound) args
             | [] => False
             end
@@ -884,10 +884,10 @@ Section Sound.
       apply (indexed1_sound rho "sign_extend" k sa (VBV wa x)); [exact Hk | exact Hsa | reflexivity].
     - (* array value *)
       destruct args as [|d assigns]; cbn [wfp] in HW; [contradiction|].
-      destruct HW as ((ti & te & Hsort) & Hkeys & Hrec).
+      destruct HW as ((te & Hsort) & Hkeys & Hrec).
       inversion HF as [|? pd ? sa Hd HFa]; subst.
       change (eval J (T (OArrayValue it) (d :: assigns)))
-        with (VArr (arr_assign (fun _ => eval J d) (map (eval J) assigns))).
+        with (VArr (arr_assign (fun k => if key_sortb k it then eval J d else junk) (map (eval J) assigns))).
       cbn [node_text List.tl] in *.
       set (tps := pairs_of assigns).
       set (vps := map (fun kv : term * term => (eval J (fst kv), eval J (snd kv))) tps).
@@ -899,7 +899,7 @@ Section Sound.
         - inversion HF1; subst. constructor.
         - inversion HF1 as [|? s2 ? sr2 H2 HF2]; subst. cbn [pairs_of]. constructor; [cbn [fst snd]; auto | now apply IHl]. }
       destruct (Permutation_Forall2 HP F) as (vps' & HPv & F').
-      rewrite (store_chain_sound rho J HS ordered vps' _ (fun _ => eval J d)
+      rewrite (store_chain_sound rho J HS ordered vps' _ (fun k => if key_sortb k it then eval J d else junk)
                  (const_array_sound rho _ _ _ _ _ Hsort Hd) F').
       do 2 f_equal.
       rewrite (arr_assign_pairs _ (map (eval J) assigns)), (pairs_of_map (eval J)). fold tps. fold vps.
